@@ -539,7 +539,11 @@ func readAllRecords(rr protocol.RecordReader) []string {
 		if r.Value != nil {
 			r.Value.Close()
 		}
-		xs = append(xs, canonRec(r.Offset, r.Time.UnixNano()/1000000, k, v, r.Headers, false))
+		ms := int64(0) // the zero time.Time (a record without timestamp) prints as 0, as on the Conn path
+		if !r.Time.IsZero() {
+			ms = r.Time.UnixNano() / 1000000
+		}
+		xs = append(xs, canonRec(r.Offset, ms, k, v, r.Headers, false))
 	}
 }
 
@@ -663,7 +667,8 @@ type entryPlan struct {
 	txn     bool
 	recs    []rec
 	sparse  bool
-	extra   int // attribute bits the library never writes but brokers do: timestamp type, delete horizon, unknown bits
+	empty   bool // v2 batch whose records were all compacted away (header retained, count 0)
+	extra   int  // attribute bits the library never writes but brokers do: timestamp type, delete horizon, unknown bits
 }
 
 type built struct {
@@ -697,6 +702,10 @@ func build(o *orc.Oracle, r *rand.Rand, base int64, plan []entryPlan) *built {
 	bt := &built{next: base}
 	for _, e := range plan {
 		n := len(e.recs)
+		nt := ""
+		if n > 0 && e.recs[0].ms == -1 {
+			nt = "nt" // no timestamp
+		}
 		switch e.kind {
 		case "m0", "m1":
 			magic := 0
@@ -714,7 +723,7 @@ func build(o *orc.Oracle, r *rand.Rand, base int64, plan []entryPlan) *built {
 				bt.ends = append(bt.ends, len(bt.bytes))
 				bt.crcAt = append(bt.crcAt, start+12+r.Intn(4))
 			}
-			bt.desc = append(bt.desc, fmt.Sprintf("%sx%d%s", e.kind, n, extraTag(e.extra)))
+			bt.desc = append(bt.desc, fmt.Sprintf("%sx%d%s", e.kind, n, extraTag(e.extra)+nt))
 		case "w1":
 			var parts []string
 			rel := int64(0)
@@ -729,14 +738,33 @@ func build(o *orc.Oracle, r *rand.Rand, base int64, plan []entryPlan) *built {
 			comp := compressWith(e.codec, inner)
 			wrapperOff := bt.next + rel - 1
 			start := len(bt.bytes)
-			bt.bytes = append(bt.bytes, ask(o, fmt.Sprintf("encset m:1:%d:%d:%d:nil:%s", wrapperOff, int(int8(e.codec|e.extra)), e.recs[n-1].ms, wb(comp)))...)
-			bt.zs = append(bt.zs, fmt.Sprintf("z%d:%d:%s", start+34, len(comp), wb(inner)))
+			// the wrapper's key: null as producers write it; the format allows bytes there (C05-D31), also empty
+			wkey, wkeyLen, ktag := "nil", 0, ""
+			switch r.Intn(4) {
+			case 0:
+				k := gen.Bytes(r, 1+r.Intn(9))
+				wkey, wkeyLen, ktag = wb(k), len(k), "k"
+			case 1:
+				if r.Intn(2) == 0 {
+					wkey, ktag = "-", "k0"
+				}
+			}
+			bt.bytes = append(bt.bytes, ask(o, fmt.Sprintf("encset m:1:%d:%d:%d:%s:%s", wrapperOff, int(int8(e.codec|e.extra)), e.recs[n-1].ms, wkey, wb(comp)))...)
+			bt.zs = append(bt.zs, fmt.Sprintf("z%d:%d:%s", start+34+wkeyLen, len(comp), wb(inner)))
 			bt.next = wrapperOff + 1
 			bt.ends = append(bt.ends, len(bt.bytes))
 			bt.crcAt = append(bt.crcAt, start+12+r.Intn(4))
-			bt.desc = append(bt.desc, fmt.Sprintf("w1c%dx%d%s%s", e.codec, n, map[bool]string{true: "s", false: ""}[e.sparse], extraTag(e.extra)))
+			bt.desc = append(bt.desc, fmt.Sprintf("w1c%dx%d%s%s%s", e.codec, n, map[bool]string{true: "s", false: ""}[e.sparse], ktag, extraTag(e.extra)+nt))
 		case "b2":
+			if e.empty {
+				// a batch whose records were all compacted away: the broker keeps the header (count 0, the offset range)
+				n = 0
+				e.recs, e.codec, e.control, e.sparse = e.recs[:1], 0, false, false
+			}
 			first, max := e.recs[0].ms, e.recs[0].ms
+			if e.empty {
+				e.recs = nil
+			}
 			var parts []string
 			delta := int64(0)
 			for i, x := range e.recs {
@@ -753,7 +781,12 @@ func build(o *orc.Oracle, r *rand.Rand, base int64, plan []entryPlan) *built {
 			if e.sparse && r.Intn(2) == 0 {
 				lod += int64(r.Intn(3)) // trailing records compacted away
 			}
-			payload := ask(o, "encrecs "+strings.Join(parts, ";"))
+			payload := []byte{}
+			if e.empty {
+				lod = int64(r.Intn(3))
+			} else {
+				payload = ask(o, "encrecs "+strings.Join(parts, ";"))
+			}
 			attrs := int(int16(e.codec | e.extra))
 			if e.txn {
 				attrs |= 16
@@ -789,7 +822,10 @@ func build(o *orc.Oracle, r *rand.Rand, base int64, plan []entryPlan) *built {
 			if e.sparse {
 				flags += "s"
 			}
-			bt.desc = append(bt.desc, fmt.Sprintf("b2c%dx%d%s%s", e.codec, n, flags, extraTag(e.extra)))
+			if e.empty {
+				flags += "e"
+			}
+			bt.desc = append(bt.desc, fmt.Sprintf("b2c%dx%d%s%s", e.codec, n, flags, extraTag(e.extra)+nt))
 		}
 	}
 	return bt
@@ -855,6 +891,12 @@ func genPlan(r *rand.Rand, class int, thorough bool) []entryPlan {
 		default:
 			k = "b2"
 		}
+		if k != "m0" && r.Intn(8) == 0 {
+			// records without a timestamp (-1, NO_TIMESTAMP: produced by pre-0.10 clients and kept by up-conversion)
+			for j := range rs {
+				rs[j].ms = -1
+			}
+		}
 		e := entryPlan{kind: k, recs: rs, extra: extraBits(r, k)}
 		switch k {
 		case "w1":
@@ -868,6 +910,8 @@ func genPlan(r *rand.Rand, class int, thorough bool) []entryPlan {
 			if r.Intn(6) == 0 {
 				e.control, e.codec, e.sparse = true, 0, false
 				e.recs = controlRecs(r, rs[0].ms)
+			} else if r.Intn(8) == 0 {
+				e.empty = true // an empty retained batch (C02-D4 / D14 are fixed: both paths pass over it)
 			}
 		}
 		plan = append(plan, e)
@@ -1296,6 +1340,10 @@ func zFor(set []byte, version int, codec int) (string, bool) {
 	return fmt.Sprintf(" z%d:%d:%s", start, len(set)-start, wb(plain)), true
 }
 
+// v1WithHeaders: the records of a message-format-1 case carry headers, which that format cannot hold (known finding
+// C05-D32: they are dropped without an error)
+var v1WithHeaders bool
+
 func produceCase(r *rand.Rand, path string, version int, codec int, rs []rec, totalSmall bool) {
 	var set []byte
 	var err error
@@ -1318,11 +1366,14 @@ func produceCase(r *rand.Rand, path string, version int, codec int, rs []rec, to
 		}
 	}()
 	tag := fmt.Sprintf("produce/%s/v%d/c%d/produced", path, version, codec)
+	if v1WithHeaders {
+		tag = fmt.Sprintf("produce/%s/v1hdr/c%d/produced", path, codec)
+	}
 	offs := func(i int) int64 { return int64(i) }
 	if path == "conn" && version == 1 && codec == 0 {
 		offs = func(int) int64 { return 0 } // Message.Offset is written as is; brokers assign offsets
 	}
-	want := givenCanon(rs, offs, version == 2)
+	want := givenCanon(rs, offs, version == 2 || v1WithHeaders)
 	if err != nil {
 		emit(fmt.Sprintf("wire %s -", tag), "error:"+errClass(err)+" wanted "+want)
 		return
@@ -1390,6 +1441,23 @@ func main() {
 		}
 		evs, res := pageTrace(r, steps)
 		emit("ptrace "+evs, res)
+		return
+	}
+	if mode == "wrapkey" {
+		// exploration (not part of the check): a compressed v1 wrapper that carries a KEY — the hypothesis `hkey` of
+		// Props/C05.decoders_agree_content excludes it (brokers write wrappers with a null key)
+		inner := ask(o, "encset m:1:0:0:1600000000000:6b31:7631 m:1:1:0:1600000000001:6b32:7632")
+		if len(os.Args) > 3 && os.Args[3] == "empty" {
+			inner = nil
+		}
+		comp := compressWith(1, inner)
+		val := wb(comp)
+		if len(os.Args) > 3 && os.Args[3] == "nullvalue" {
+			val = "nil"
+		}
+		set := ask(o, fmt.Sprintf("encset m:1:11:1:1600000000001:%s:%s", os.Args[2], val))
+		fmt.Println("client:", canonList(fetchClient(set, 10)))
+		fmt.Println("conn:  ", canonList(fetchConn(set, 10, 12, 5)))
 		return
 	}
 	if mode == "pages" {
@@ -1491,6 +1559,14 @@ func main() {
 				}
 			}
 		}
+		// message format 1 cannot carry headers: one case per path with headers given (known finding C05-D32)
+		v1WithHeaders = true
+		for _, path := range []string{"proto", "client", "writer", "conn"} {
+			hs := genRecs(r, 2, 0, true)
+			hs[0].hdrs = []protocol.Header{{Key: "h", Value: []byte("v")}}
+			produceCase(r, path, 1, 0, hs, false)
+		}
+		v1WithHeaders = false
 		// many small records in one batch (offset deltas and varint widths beyond one byte)
 		produceCase(r, "proto", 2, 0, genRecs(r, 150, 0, false), false)
 		produceCase(r, "conn", 2, 0, genRecs(r, 150, 0, false), false)
